@@ -278,7 +278,8 @@ impl Site {
             "event" => false,
             _ => return None,
         };
-        let level = LEVELS.iter().position(|l| *l == t.next().unwrap_or(""))? as u8;
+        let level_tok = t.next()?;
+        let level = LEVELS.iter().position(|l| *l == level_tok)? as u8;
         let name = t.xs()?;
         let target = t.xs()?;
         let module_path = t.opt_xs()?;
